@@ -439,7 +439,7 @@ EPS = float(np.finfo(float).eps)
 
 def c10_case(rec, hub, rng, tier):
     fd = hub.fd
-    cfg, lm = make_solvable(fd, rng, tier)
+    cfg, lm = make_solvable(fd, rng, tier, wide_p=0.012)
     if cfg is None:
         rec.skip(M10, "no solvable configuration found")
         return
